@@ -222,6 +222,16 @@ def check_case(case):
     if _verify(m, idx, b''.join(parts), spk):
         raise Violation('foreign-signature-accepted/%s' % tname, 'signature made with a non-member key is accepted (%s, ht=0x%02x)' % (tname, ht))
     evals += 1
+    # m-of-n: one member key signing several slots must not satisfy the script
+    parts = [ssig[a:b] for _, _, a, b in toks]
+    if case['template'] == 'multisig' and case['m'] >= 2:
+        for pos in range(1, case['m'] + 1):
+            dup = [parts[0]] + [parts[pos]] * case['m'] + parts[case['m'] + 1:]
+            if _verify(m, idx, b''.join(dup), spk):
+                raise Violation('duplicate-signer-accepted/%s' % tname, '%d-of-%d satisfied by the signature of a single key repeated (%s, ht=0x%02x)' % (
+                    case['m'], case['n'], tname, ht))
+            evals += 1
+        cls.append('dup-signer')
     return {'nt': base != 1 or acp or len(m['vin']) >= 2, 'evals': evals, 'cls': cls,
             'digest': digest([case['tx'], tname, ht, idx])}
 
